@@ -37,6 +37,40 @@ pub fn naga_layouts(src: &str) -> Result<BTreeMap<String, (u32, Vec<(String, u32
     Ok(m)
 }
 
+/// Structs that are host-shareable *and* shader IO (vertex pulling: the vertex struct is also the element
+/// type of a storage buffer): members carry @location / @builtin attributes.
+pub fn io_host_space() -> Vec<StructProg> {
+    use wgslgen::{Member, Scalar, StructDef, Ty};
+    let f = Scalar::F32;
+    let tys = [Ty::Vec(3, f), Ty::Vec(2, f), Ty::Vec(4, f), Ty::Scalar(f), Ty::Vec(2, Scalar::U32), Ty::Vec(3, Scalar::I32)];
+    let mut out = vec![];
+    for (i, a) in tys.iter().enumerate() {
+        for (j, b) in tys.iter().enumerate() {
+            for variant in 0..3 {
+                let mut members = vec![Member::located("position", a.clone(), 0), Member::located("uv", b.clone(), 1)];
+                if variant == 1 {
+                    members.push(Member::located("colour", Ty::Vec(4, f), 2));
+                }
+                if variant == 2 {
+                    members.insert(1, Member::builtin("vidx", Ty::Scalar(Scalar::U32), "vertex_index"));
+                }
+                let mut env = base_env();
+                env.add(StructDef { name: "Root".into(), members });
+                let mut src = env.get("Root").wgsl(false);
+                let (decl, key) = match (i + j + variant) % 3 {
+                    0 => ("@group(0) @binding(0) var<storage, read> data: Root;", "direct"),
+                    1 => ("@group(0) @binding(0) var<storage, read> data: array<Root>;", "rt-array-element"),
+                    _ => ("@group(0) @binding(0) var<storage, read> data: array<Root, 4>;", "array-element"),
+                };
+                src.push_str(decl);
+                src.push_str("\n@vertex fn vs_main(v: Root) -> @builtin(position) vec4<f32> {\n    return vec4<f32>(0.0);\n}\n");
+                out.push(StructProg { key: format!("io-host|{}|{}|variant={variant}|{key}", a.wgsl(), b.wgsl()), env, root: "Root".into(), space: "storage-read", src });
+            }
+        }
+    }
+    out
+}
+
 fn cfg_for(repr: Repr) -> Config {
     Config { bytemuck_host: true, repr, ..Config::default() }
 }
@@ -188,7 +222,8 @@ pub fn rejection_kind(errs: &[(String, String)]) -> &'static str {
 pub fn run(tier: &str) -> i32 {
     let mut rep = Report::new("C05", tier);
     let thorough = rep.thorough();
-    let progs = struct_space(true, true, true, false);
+    let mut progs = struct_space(true, true, true, false);
+    progs.extend(io_host_space());
     // ---- (a) whole space x 3 representations
     let reprs = [Repr::Rust, Repr::Glam, Repr::Nalgebra];
     let items: Vec<(usize, Repr)> = (0..progs.len()).flat_map(|i| reprs.iter().map(move |r| (i, *r))).collect();
@@ -234,7 +269,7 @@ pub fn run(tier: &str) -> i32 {
     let mut index: BTreeMap<String, (usize, Repr)> = BTreeMap::new();
     for (k, ((i, r), (text, _))) in items.iter().zip(res.iter()).enumerate() {
         let p = &progs[*i];
-        let forced = p.key.starts_with("attr|") || p.key.starts_with("s2|vec3<f32>|f32") || p.key.starts_with("s2|f32|vec3<f32>");
+        let forced = p.key.starts_with("attr|") || (p.key.starts_with("io-host|") && k % 5 == 0) || p.key.starts_with("s2|vec3<f32>|f32") || p.key.starts_with("s2|f32|vec3<f32>");
         if !(k % stride == 0 || (forced && !thorough && *r != Repr::Nalgebra)) {
             continue;
         }
